@@ -42,10 +42,12 @@ in which epoch its source was read:
   * after a block was left — normally or by an exception — A's next call returns a version ≥ the one current at its start;
   * a nested enter/exit pair does not end the block (values after it still ≥ the OUTER entry; the block interval used for
     B's calls stays open until the outermost exit);
-  * B's (and C's) call returns a version ≤ the one current at its return and ≥ the smaller of (version at the
-    start of B's call, version at the entry of any block of A that overlapped B's call) — the second
-    term is the recorded finding C16-xthread-hit-predates-call (sharing the block's cache between
-    threads is oneshot's design), accepted here so that only NEW violations are reported.
+  * a call made outside the caller's own blocks (B's, C's, or A's between blocks) returns a version ≤ the one current at
+    its return and ≥ the one current at its start: the literal clause "valid at some moment of the call". Until fix 447541f
+    a value from an overlapping block of another thread was accepted (then-recorded finding C16-xthread-hit-predates-call);
+    the cache now serves the activating thread only and such a value is a violation;
+  * inside one outermost block the owner gets ONE answer per method (first read; until 447541f the then-recorded finding
+    C16-owner-entry-overwritten was only counted).
 """
 import sys
 import threading
@@ -66,7 +68,7 @@ def meth_files():
         m[x] = ["stat"]
     for x in c16.STATUS_M:
         m[x] = ["status"]
-    m.update({"memory_maps": ["smaps"], "memory_full_info": ["smaps", "statm"], "memory_info": ["statm"],
+    m.update({"memory_maps": ["smaps"], "memory_full_info": ["smaps", "smaps_rollup", "statm"], "memory_info": ["statm"],
               "cmdline": ["cmdline"], "io_counters": ["io"]})
     return m
 
@@ -433,22 +435,24 @@ def judge(logs, stats=None):
                 if cur is not None:
                     lo, what = cur, "inside a block entered at version %d" % cur
                 else:
-                    # plain call: from the call's duration, or (recorded finding C16-xthread-hit-predates-call) from a
-                    # block of ANOTHER thread that overlapped the call
-                    lo = v0
-                    for (e0, e1) in others:
-                        if e0 <= v1 and e1 >= v0:
-                            lo = min(lo, e0)
-                    what = "outside its own blocks during versions %d..%d (allowed from %d)" % (v0, v1, lo)
+                    # plain call: the literal clause — a moment of the call itself. (Until fix 447541f a value from an
+                    # overlapping block of ANOTHER thread was tolerated as recorded finding C16-xthread-hit-predates-call; the
+                    # cache now serves its owner only, so such a value is a violation.)
+                    lo, what = v0, "outside its own blocks during versions %d..%d" % (v0, v1)
                 if val is not None and not (lo <= val <= v1):
+                    if cur is None and stats is not None:
+                        stats["plain_value_predates_call"] = stats.get("plain_value_predates_call", 0) + 1
                     return "thread %d: a call %s returned version %d at version %d" % (who, what, val, v1)
-                if cur is not None and val is not None and stats is not None:
+                if cur is not None and val is not None:
+                    # first-read clause for the block owner: one method, one outermost block, one answer (was finding
+                    # C16-owner-entry-overwritten until 447541f)
                     m = o.get("meth")
                     if m in first and first[m] != val:
-                        stats["owner_value_replaced_in_block"] = stats.get("owner_value_replaced_in_block", 0) + 1
+                        if stats is not None:
+                            stats["owner_value_replaced_in_block"] = stats.get("owner_value_replaced_in_block", 0) + 1
+                        return ("thread %d: inside ONE block %s() answered version %d and later version %d (the first read "
+                                "of the block was replaced)" % (who, m, first[m], val))
                     first.setdefault(m, val)
-                if cur is None and val is not None and val < v0 and stats is not None:
-                    stats["plain_value_predates_call"] = stats.get("plain_value_predates_call", 0) + 1
             elif kind == "asdict" and o and o.get("kind") == "dict":
                 lo = cur if cur is not None else v0
                 for n, v in sorted(o["values"].items()):
@@ -575,11 +579,7 @@ def _explore_program(ctx, res, ex, family, pname, progs, target, full, budget, s
             res.count("preempt:schedules_with_a_lock_wait")
         res.count("preempt:%s:%s:%d-switch" % (family, pname, len(plan) - len(progs)))
         res.case(("preempt", family, pname, plan), nontrivial=all(k is None or k > 0 for _, k in plan))
-        before = stats.get("owner_value_replaced_in_block", 0)
         why = prob or judge(logs, stats)
-        if stats.get("owner_value_replaced_in_block", 0) > before and "preempt_owner_value_replaced_first" not in res.extra:
-            res.extra["preempt_owner_value_replaced_first"] = {"program": pname, "progs": progs, "plan": plan, "target": target,
-                                                               "owner_results": out.get("0")}
         if why and not found:
             found = True
             res.disagree("spec", {"preempt": dict(inp0, plan=plan, points=[n[t] for t in sorted(n)])},
@@ -589,9 +589,6 @@ def _explore_program(ctx, res, ex, family, pname, progs, target, full, budget, s
                 break
     for k, v in stats.items():
         res.count("preempt:" + k, v)
-    if stats.get("owner_value_replaced_in_block"):
-        fid = c16_sched.FINDING_OVERWRITE          # region of the recorded finding: counted, not reported
-        res.known_seen[fid] = res.known_seen.get(fid, 0) + stats["owner_value_replaced_in_block"]
     return total, found, exhaustive
 
 
